@@ -26,6 +26,16 @@ package rules
 // and a loop function that receives the closure as a parameter, adapters that start run through a
 // launcher method with a struct literal. Detection re-checked on top of r6, r7 and r8.
 //
+// Fourth seeded round: (h) getClient+Get extracted into a helper whose inner `err` shadows the named
+// result → R-C19-2 "a failed store request is reported as an error" (every exit on which a request
+// site's error variable is non-nil returns a non-nil error; also GetRaw/GetRawPrefix/pull returning
+// nil for a failed read); (g) run split into run + runWatcher with the last snapshot inside
+// runWatcher → R-C19-1 "last snapshot outlives the whole sync loop" (declared / built once per run,
+// threaded through helper parameters and back, never reset outside the pull-compare-send code);
+// the same split with the snapshot kept in run and handed through is silent. R-C19-3 "loop ends
+// only on done" is now decided on run's return paths (last select case taken = done case), so a
+// loop function that returns to have its watcher re-created and is entered again is not an end.
+//
 // Files: c19.go (helpers, R-C19-3), c19_units.go (run, units, R-C19-1), c19_timer.go (periodic source of R-C19-3), c19_reads.go (R-C19-2), c19_eq.go (R-C19-4),
 // c19_adapters.go (R-C19-5).
 //
@@ -99,6 +109,7 @@ type c19unit struct {
 	lit   *ast.FuncLit  // the closure (nil for a declared unit)
 	decl  *ast.FuncDecl // the declared function / method (nil for a closure)
 	body  ast.Node      // lit, or decl.Body
+	encl  *flow.Func    // the function a closure unit is written in
 	f     *flow.Func
 	v     types.Object // variable holding the closure, or the function object of a declared unit
 	name  string       // construct prefix
@@ -353,9 +364,10 @@ func c19implies(f *flow.Func, st *flow.State, R ast.Expr, want, assumeFalse []st
 // R-C19-3
 
 const (
-	c19evPcs  = "ev:pcs"    // a pull-compare-send closure was invoked
-	c19evIn   = "ev:inloop" // the loop has been entered
-	c19evTick = "ev:intick" // the current iteration runs the timer case
+	c19evPcs      = "ev:pcs"      // a pull-compare-send closure was invoked
+	c19evIn       = "ev:inloop"   // the loop has been entered
+	c19evTick     = "ev:intick"   // the current iteration runs the timer case
+	c19evLastDone = "ev:lastdone" // the select case taken last in the loop is the done case
 )
 
 // c19resolveLocal: an identifier naming a local that is assigned exactly once in f stands for the
@@ -584,8 +596,22 @@ func c19Skeleton(c *core.Ctx, r *c19run) {
 					}
 				}
 				st.Set(c19evIn, flow.True)
+				st.Set(c19evLastDone, flow.False)
 				st.Set(c19evPcs, flow.False)
 				st.Set(c19evTick, flow.False)
+			}
+			if b.Kind == cfg.KindSelectCaseBody && contains(loop, b.Stmt) {
+				isDone := false
+				for _, d := range done {
+					if d == b.Stmt {
+						isDone = true
+					}
+				}
+				if isDone {
+					st.Set(c19evLastDone, flow.True)
+				} else {
+					st.Set(c19evLastDone, flow.False)
+				}
 			}
 			if b.Kind == cfg.KindSelectCaseBody && isTick[b.Stmt] {
 				st.Set(c19evTick, flow.True)
@@ -646,21 +672,30 @@ func c19Skeleton(c *core.Ctx, r *c19run) {
 				"the periodic pull is driven by a one-shot "+what+" and some path from its firing to the next loop iteration does not re-arm it (e.g. the early return after a failed pull): after one such iteration — a pull that fails while etcd is down — the periodic pull never fires again, so the syncer does not converge after the outage without a further write", w...)
 		}
 	}
-	// the loop is left only on done
-	exits := breaksOut(lf, loop, labelOf(lf.Body, loop))
-	var badExit ast.Node
-	for _, x := range exits {
-		in := false
-		for _, d := range done {
-			if contains(d, x) {
-				in = true
-			}
+	// run ends only through the done case: on every return path of run that went through the loop,
+	// the select case taken last is the one receiving from the syncer's done channel (leaving the
+	// loop function to re-create the watcher and entering it again is not an end of run)
+	var badExit *flow.Exit
+	nExits := 0
+	for _, ex := range res.Exits {
+		if ex.Kind != flow.ExitReturn || c19phantom(ex) || !ex.State.Is(c19evIn, flow.True) {
+			continue
 		}
-		if !in {
-			badExit = x
+		nExits++
+		if !ex.State.Is(c19evLastDone, flow.True) && badExit == nil {
+			badExit = ex
+		}
+	}
+	var wx []string
+	at := "?"
+	if badExit != nil {
+		wx = witness(badExit.State)
+		at = pos(c, badExit.At)
+		if r := badExit.Ret(); r != nil {
+			at = pos(c, r)
 		}
 	}
 	c.Check(badExit == nil, "R-C19-3", r.cons+"|loop ends only on done", pos(c, loop),
-		sprintf("%d statement(s) leave the loop, all in the case receiving from the syncer's done channel", len(exits)),
-		"the sync loop can be left for a reason other than Close(): from then on nothing is delivered any more although the store keeps changing (at "+pos(c, badExit)+")")
+		sprintf("%d return path(s) of run after the loop was entered, all through the case receiving from the syncer's done channel", nExits),
+		"the sync loop can be left for a reason other than Close(): from then on nothing is delivered any more although the store keeps changing (at "+at+")", wx...)
 }
